@@ -31,7 +31,7 @@ def analyse(ctx, P, R1, R2):
     for inst in insts:
         group = [f for f in fns if f.record == inst]
         C = lockset.ClassLockCheck(group, TABLE)
-        called = set(c for f in group for (_, c, _) in C.calls[f.id])
+        called = set(c for f in group if f.kind not in ('ctor', 'dtor') for (_, c, _) in C.calls[f.id])
         tag = inst.split('<')[-1].split('::')[-1].rstrip('>')
         for f in group:
             entry = f.id not in called
